@@ -76,6 +76,10 @@ CHECKS = {
  'C13': ('exploration', 'runtime monitor: differential oracle between query_table and eight entry points (rbql.query with user-written classes, query_csv, CLI file / stdin-stdout in three output formats, pandas, sqlite library and CLI) with process observers (exit status, stdout, stderr captured separately)',
          'Generated type-agnostic queries over rectangular string tables run through every front-end and are compared cell by cell (after the stringification CSV sinks apply) and header by header with query_table; failing queries check exit status, Error [type] on stderr and warning routing; held on the cases observed.',
          'Differential: query_table is the reference (pinned by C01-C05, C07). CLI output is parsed with rv/model/refcsv.py in the announced dialect.', 'DESIGN.md#c13'),
+
+ 'C16': ('exploration', 'runtime monitor: fresh-interpreter solo baselines as oracle; history leg (all sequences of length <= 2 + random longer ones in one process); deterministic cooperative scheduler over two real threads enumerating ALL interleavings of get_record / write (/ finish) steps by stateless DFS; preemption stress with sys.monitoring LINE-event yield injection; module-state snapshot (advisory)',
+         'Every unordered pair of 14 scenarios (successes and every failure class) is run under every interleaving of its iterator / writer steps, and every short history is replayed in one process; each result must equal the result of the same query alone in a fresh interpreter; held on the schedules and histories observed.',
+         'Exhaustive at the granularity of iterator / writer calls (what the statement names) on 2-record tables (quick) and 3/4-record tables (thorough, capped); statement-level preemption is sampled, bytecode-level is not explored. The JS port keeps its context in a module global (documented) and is not claimed.', 'DESIGN.md#c16'),
 }
 
 NOT_YET = 'check not registered yet (machinery under construction; see DESIGN.md section 3a build order)'
